@@ -1,56 +1,20 @@
 /-
 C17 — wire formats round-trip. Property theorems only (helper lemmas live in Proofs/).
 -/
-import NeoModel.Model.Wire.VarUint
+import NeoModel.Proofs.WireVarUint
+import NeoModel.Proofs.WireCodec
 namespace NeoModel.Wire
-
-theorem leVal_leBytes (n v : Nat) (h : v < 256 ^ n) : leVal (leBytes n v) = v := by
-  induction n generalizing v with
-  | zero => simp at h; simp [leBytes, leVal, h]
-  | succ n ih =>
-    have h2 : v / 256 < 256 ^ n := by
-      rw [Nat.div_lt_iff_lt_mul (by decide)]; rw [Nat.pow_succ] at h; exact h
-    simp only [leBytes, leVal, ih _ h2]
-    have : (UInt8.ofNat (v % 256)).toNat = v % 256 := by
-      simp [UInt8.toNat_ofNat']
-    rw [this]; omega
-
-theorem leBytes_length (n v : Nat) : (leBytes n v).length = n := by
-  induction n generalizing v with
-  | zero => rfl
-  | succ n ih => simp [leBytes, ih]
 
 /-- C17 (var-uint): decode (encode v ++ rest) = (v, rest) for every 64-bit `v`. -/
 theorem varuint_roundtrip (v : Nat) (r : Bytes) (h : v < 2 ^ 64) :
-    readVarUint (putVarUint v ++ r) = some (v, r) := by
-  unfold putVarUint
-  split
-  · rename_i h1
-    have hb : (UInt8.ofNat v).toNat = v := by simp [UInt8.toNat_ofNat']; omega
-    have n1 : UInt8.ofNat v ≠ 0xfd := by intro e; have := congrArg UInt8.toNat e; rw [hb] at this; simp at this; omega
-    have n2 : UInt8.ofNat v ≠ 0xfe := by intro e; have := congrArg UInt8.toNat e; rw [hb] at this; simp at this; omega
-    have n3 : UInt8.ofNat v ≠ 0xff := by intro e; have := congrArg UInt8.toNat e; rw [hb] at this; simp at this; omega
-    simp [readVarUint, n1, n2, n3, hb]
-  · split
-    · rename_i h1 h2
-      have : v < 256 ^ 2 := by omega
-      simp [readVarUint, takeN, leBytes_length, leVal_leBytes 2 v this]
-    · split
-      · rename_i h1 h2 h3
-        have : v < 256 ^ 4 := by omega
-        simp [readVarUint, takeN, leBytes_length, leVal_leBytes 4 v this]
-      · have : v < 256 ^ 8 := by omega
-        simp [readVarUint, takeN, leBytes_length, leVal_leBytes 8 v this]
+    readVarUint (putVarUint v ++ r) = some (v, r) := readVarUint_putVarUint v r h
 
 -- non-vacuity: the hypothesis is met at the top of the range
 example : readVarUint (putVarUint (2^64 - 1) ++ [7]) = some (2^64 - 1, [7]) :=
   varuint_roundtrip _ _ (by decide)
 
-end NeoModel.Wire
-
-namespace NeoModel.Wire
 /-- C17 (var-uint): the reported size is the length of the encoding (for lengths, i.e. < 2^32). -/
-theorem varuint_size_eq (v : Nat) : (putVarUint v).length = (if v ≤ 0xFFFFFFFF then varUintSize v else 9) := by
-  unfold putVarUint varUintSize
-  split <;> (try split) <;> (try split) <;> simp [leBytes_length] <;> omega
+theorem varuint_size_eq (v : Nat) : (putVarUint v).length = (if v ≤ 0xFFFFFFFF then varUintSize v else 9) :=
+  putVarUint_length v
+
 end NeoModel.Wire
